@@ -471,6 +471,15 @@ def conc_scalar(typ, vc, rng):
         if n is None:
             n = rng.randint(lo, hi)
         return pywbem.cimvalue(n, typ)
+    if typ in REAL_TYPES and t == "exp1":
+        # spec/CimWire.tla RealLexForms "exp1": one significant digit and an
+        # exponent in the %.11G / %.17G text (pywbem's Real32 holds the
+        # double as given, so 1e22 is written 1E+22 for real32 too)
+        xs = [1e22, 1e-7, 3e38, -4e30, 1e-45, -2e-20, 5e15 if
+              typ == "real32" else 5e17]
+        if typ == "real64":
+            xs += [1e308, -4e200, 7e-300]
+        return pywbem.cimvalue(rng.choice(xs), typ)
     if typ in REAL_TYPES:
         big = 3.4028234663852886e+38 if typ == "real32" else \
             1.7976931348623157e+308
